@@ -156,12 +156,20 @@ func closedByCallee[T any](ch chan T) (was bool) {
 	return false
 }
 
+// drainPause: set by a harness for the duration of a case to make the consumers of lookup results slow (simulated time).
+var drainPause time.Duration
+
 func runLookup[T any](capacity int, onReturn func(), key func(T) string, isNil func(T) bool, call func(ch chan T) error) *lookupResult {
 	res := &lookupResult{}
 	done := make(chan struct{})
 	ch := make(chan T, capacity)
 	drain := func() {
+		n := 0
 		for x := range ch {
+			if drainPause > 0 && n < 2 && sim.Active() {
+				time.Sleep(drainPause) // a consumer that is slow in simulated time (the lookup holds its read lock meanwhile)
+			}
+			n++
 			if isNil(x) {
 				res.NilEl = true
 				continue
